@@ -23,6 +23,16 @@ func alignedArena() []byte {
 	return unsafe.Slice((*byte)(unsafe.Pointer(&w[0])), xorArena)
 }
 
+// xorSafe calls an implementation and turns a panic (reading or writing out of range) into a verdict.
+func xorSafe(f func(dst, a, b []byte) int, dst, a, b []byte) (r int, panicked string) {
+	defer func() {
+		if x := recover(); x != nil {
+			panicked = fmt.Sprint(x)
+		}
+	}()
+	return f(dst, a, b), ""
+}
+
 func runXor(tier string, shard, shards int, rep *SeqReport) {
 	impls := []xorImpl{{"generic", xor.XorBytes}}
 	if xorold.Present {
@@ -100,10 +110,12 @@ func runXor(tier string, shard, shards int, rep *SeqReport) {
 										}
 										_ = dlo
 										_ = dhi
-										r := im.f(dst, a, b)
+										r, pv := xorSafe(im.f, dst, a, b)
 										cnt++
 										bad := ""
-										if r != n {
+										if pv != "" {
+											bad = "panicked: " + pv
+										} else if r != n {
 											bad = fmt.Sprintf("returned %d, want %d", r, n)
 										}
 										// expected memory
@@ -199,10 +211,12 @@ func runXor(tier string, shard, shards int, rep *SeqReport) {
 								case 2:
 									dst, dstBuf, dstOrig = b, Bb, B1
 								}
-								r := im.f(dst, a, b)
+								r, pv := xorSafe(im.f, dst, a, b)
 								cnt++
 								bad := ""
-								if r != n {
+								if pv != "" {
+									bad = "panicked: " + pv
+								} else if r != n {
 									bad = fmt.Sprintf("returned %d, want %d", r, n)
 								}
 								for i := 0; i < len(dstBuf) && bad == ""; i++ {
@@ -272,10 +286,12 @@ func runXor(tier string, shard, shards int, rep *SeqReport) {
 								dp, ap, bp = p0, p1, p2
 							}
 							dst, a, b = blk(dp), blk(ap), blk(bp)
-							r := im.f(dst, a, b)
+							r, pv := xorSafe(im.f, dst, a, b)
 							cnt++
 							bad := ""
-							if r != n {
+							if pv != "" {
+								bad = "panicked: " + pv
+							} else if r != n {
 								bad = fmt.Sprintf("returned %d, want %d", r, n)
 							}
 							for i := range buf {
@@ -311,9 +327,9 @@ func runXor(tier string, shard, shards int, rep *SeqReport) {
 						a := []byte{byte(x), byte(y)}[:n]
 						b := []byte{byte(y), byte(x ^ 0x5A)}[:n]
 						d := []byte{0x11, 0x22, 0x33}
-						r := im.f(d[:n], a, b)
+						r, pv := xorSafe(im.f, d[:n], a, b)
 						cnt++
-						ok := r == n && d[2] == 0x33
+						ok := pv == "" && r == n && d[2] == 0x33
 						for i := 0; i < n; i++ {
 							ok = ok && d[i] == a[i]^b[i]
 						}
